@@ -57,10 +57,34 @@ func HarnessFreshness() {
 		expBefore := m.Expires
 		written := m.TimeWritten
 		t0 := time.Now() // symbolic, >= every earlier reading
-		vClockFreeze(true)
+		contended := symChoice(2) == 1
+		var tLock time.Time
+		if contended {
+			// the key lock is contended: time passes between the start of the lookup and the
+			// moment the lock is obtained (the clock is free); that moment is recorded
+			first := true
+			vOnLockAcquired(func() {
+				if first {
+					first = false
+					tLock = time.Now()
+					vClockFreeze(true)
+				}
+			})
+		} else {
+			vClockFreeze(true)
+		}
 		c := e.plain(newReq("GET", "o.test", "/r", "", nil))
+		vOnLockAcquired(nil)
 		vClockFreeze(false)
 		contacted := len(e.o.seen) > seenBefore
+		if contended {
+			vReach("contended-lookup")
+			if !contacted {
+				// served from the store although the lifetime had elapsed when the lock was obtained?
+				vAssert(!tLock.After(expBefore), "c03.served-although-expired-when-the-key-lock-was-obtained")
+			}
+			continue
+		}
 		vAssert(c.answered && c.status == 200 && string(c.body) == "AB", "c03.later-response-wrong")
 		xc := one(c.header, "X-Cache")
 		m, _, merr = e.p.cache.GetMetadata(key)
@@ -162,12 +186,21 @@ func HarnessRange416Retry() {
 	if symChoice(2) == 1 {
 		h416["Cache-Control"] = []string{"max-age=60"} // the 416's own directives are irrelevant for the 200
 	}
-	e.o.script = []originResp{{status: 416, header: h416, body: []byte("range-error")}, {status: 200, header: h, body: []byte("r1")},
+	retryStatus := []int{200, 200, 503}[symChoice(3)]
+	e.o.script = []originResp{{status: 416, header: h416, body: []byte("range-error")}, {status: retryStatus, header: h, body: []byte("r1")},
 		{status: 200, header: h, body: []byte("r2")}, {status: 200, header: h, body: []byte("r3")}}
 	vClockFreeze(true)
 	c1 := e.plain(newReq("GET", "o.test", "/q", "", hdr("Range", "bytes=5-9")))
 	vAssert(c1.answered, "c16.request-unanswered")
 	vReach("range-416-retried")
+	// the client gets the retried answer: its status with its headers and body (a stored
+	// 200 may be answered as the requested slice or a refusal for that range)
+	if retryStatus != 200 || forbids {
+		vAssert(c1.status == retryStatus && string(c1.body) == "r1", "c08.retried-answer-status-or-body-changed")
+	}
+	if retryStatus != 200 {
+		return
+	}
 	after := len(e.o.seen)
 	c2 := e.plain(newReq("GET", "o.test", "/q", "", nil))
 	vAssert(c2.answered && c2.status == 200, "c08.status-not-relayed")
